@@ -95,3 +95,17 @@ Print Assumptions C14_message_content.
 Print Assumptions C14_entry_content.
 Print Assumptions C14_subscribe_while_alive.
 Print Assumptions C14_stop_unknown_is_noop.
+
+(* the subscribe coroutine ServiceSubscriber._subscribe as translated from the source text (harness/gen_logic.py gen_subscribe_task) *)
+Theorem C14_subscribe_round_is_the_translated_source : forall t w,
+  subscribe_round t w
+  = gen_subscribe_round (group_entries (sub_entries w))
+      (fun p acc => send_subscribe (t_subscribe_ttl (cfg acc)) (fst p) (snd p) acc)
+      (fun w1 => t_refresh (cfg w1)) (finish_task t) (fun r => task_sleep t TSub r 1 0) w.
+Proof. exact subscribe_round_is_the_translated_source. Qed.
+Theorem C14_subscribe_task_is_the_translated_source : forall t w tk,
+  get_task t w = Some tk -> tk_done tk = false -> tk_kind tk = TSub ->
+  task_step t w = if tk_must_cancel tk && gen_subscribe_cancelled_in_sleep_ends then finish_task t w else subscribe_round t w.
+Proof. exact subscribe_task_is_the_translated_source. Qed.
+Print Assumptions C14_subscribe_round_is_the_translated_source.
+Print Assumptions C14_subscribe_task_is_the_translated_source.
